@@ -33,25 +33,44 @@ from lov.props.c03 import to_index
 
 ID = "C07"
 RULE = (
-    "case = (float64 operator recipe over the class zoo, nesting <= 3, n <= 5, batch kinds incl. sub-batch children; a generated "
-    "SUBSET of its float leaves requires grad (all / one / random subset / none-but-rhs), some leaves are non-leaf tensors or "
-    "stride-0 expansions of a smaller leaf; an entry point from {matmul (vector / matrix / batched / broadcast rhs), rmatmul, "
-    "to_dense, diagonal, getitem (slice / int row / tensor indices), sum (rows / columns / batch), add_diagonal, add_jitter, "
-    "op + op, op * op, solve (+- left factor), inv_quad, inv_quad_logdet, logdet (Cholesky / closed-form paths only), cholesky, "
-    "root_decomposition (loss on R R^T), pivoted_cholesky (full rank, loss on L L^T), sqrt_inv_matmul (+- lhs), "
-    "_bilinear_derivative(U, V)}; a generated cotangent; settings {memory_efficient on/off} x {max_cholesky_size default | 0 with "
-    "cg_tolerance=1e-12}). Non-trivial: >= 1 leaf of a non-Dense class requires grad AND (a broadcast / expanded leaf OR a strict "
-    "subset of the float leaves requires grad OR nesting >= 2). Distinct by (class path, entry point, requires-grad pattern, "
-    "settings cell, rhs shape)."
+    "case = (float64 operator recipe over the class zoo, nesting <= 3, n <= 5, batch kinds incl. sub-batch children; heads drawn with a "
+    "quota from the classes with hand-written derivative code, 1/4 of the cases nest ONLY those classes; a generated SUBSET of the float "
+    "leaves requires grad (all / one / random subset / none-but-rhs), some leaves are non-leaf tensors or stride-0 expansions of a smaller "
+    "leaf; an entry point from {matmul (vector / matrix / batched / broadcast rhs), rmatmul, to_dense, diagonal, getitem (slice / int row "
+    "/ tensor indices), sum (rows / columns / batch), add_diagonal, add_jitter, op + op, op * op, solve (+- left factor), inv_quad, "
+    "inv_quad_logdet, logdet (Cholesky / closed-form paths only), cholesky, root_decomposition (loss on R R^T), pivoted_cholesky (full "
+    "rank, loss on L L^T), sqrt_inv_matmul (+- lhs), _bilinear_derivative(U, V) with same / more / fewer batch dims}; a generated "
+    "cotangent; settings {memory_efficient on/off (both always executed and compared)} x {max_cholesky_size default | 0 with "
+    "cg_tolerance=1e-12, max_cg_iterations=200}). Non-trivial: >= 1 leaf of a non-Dense class requires grad AND (a broadcast / expanded / "
+    "sub-batch leaf OR a strict subset of the float leaves requires grad OR nesting >= 2). Distinct by (class path, entry point, "
+    "requires-grad pattern, expansion pattern, settings cell, rhs / lhs shape, index kind, sum dim, U/V kind)."
 )
-BUDGET = {"quick": 2200, "thorough": 4000}
+BUDGET = {"quick": 2600, "thorough": 4000}
 ASSUMPTIONS = [
     "float64 only; Zero / Permutation operators are not generated (no float leaves; ZeroLinearOperator declares backward impossible)",
     "stochastic paths (Lanczos-quadrature logdet) are out of scope: logdet / inv_quad_logdet(logdet=True) run with the default "
-    "max_cholesky_size only (Cholesky or closed-form overrides)",
-    "a forward pass that raises or returns a value outside the forward tolerance is counted, not reported (owned by C01-C06)",
+    "max_cholesky_size only (Cholesky or closed-form overrides); partial-rank pivoted_cholesky is not differentiated here",
+    "a forward pass that raises (also with no requires_grad anywhere) or returns a value outside the forward tolerance is counted, not "
+    "reported (owned by C01-C06)",
     "a 1-D right-hand side is generated against non-batched operators only",
-    "cases whose effective condition number exceeds 1e6 are counted as ill-conditioned and not compared",
+    "cases whose effective condition number (head, operands of elementwise products, internally inverted summands, eigenvalue-gap "
+    "factor of eigendecomposed Kronecker factors) exceeds 1e6 are counted as ill-conditioned and not compared",
+    "sqrt_inv_matmul: the first right-hand-side column must have a relative component >= 1e-3 on the extreme eigenvectors (the "
+    "quadrature interval is estimated from its Krylov space and re-used by the backward pass); other cases are counted only",
+    "functions defined on symmetric matrices only: gradients are compared along symmetric perturbations (reference on (A+A^T)/2; "
+    "sym-part for symmetric Dense leaves; the SUM over the tied left/right leaf pairs of symmetric Interpolated / Kernel nodes; the "
+    "structurally zero triangle of triangular factors is not compared)",
+    "_bilinear_derivative is called the way the library calls it (grad mode disabled); a result whose shape is sum-reducible to the "
+    "argument's shape is accepted, as torch's autograd accepts it at the Function boundary",
+]
+MUTANTS = [
+    "utils/toeplitz.py: drop `res[..., 0] -= ...` in sym_toeplitz_derivative_quadratic_form (killed)",
+    "masked_linear_operator.py: `(None, None)` in front of the base derivative (killed)",
+    "interpolated_linear_operator.py: right-values gradient gathers with the LEFT indices (killed)",
+    "constant_mul_linear_operator.py: base derivative without scaling left_vecs by the constant (killed)",
+    "functions/_matmul.py: rhs gradient with _matmul instead of _t_matmul (killed)",
+    "constant_mul_linear_operator.py: no sum over size-1 dims of the constant (EQUIVALENT: autograd sum-reduces expandable gradients)",
+    "functions/_matmul.py: no broadcast sum of rhs_grad (EQUIVALENT: autograd sum-reduces expandable gradients)",
 ]
 
 # ----------------------------------------------------------------------------------------------------------------------
@@ -1426,6 +1445,23 @@ TRIGGERS = {
     "interpolated_rect_base": _interp_rect_base,
     "interpolated_permuted_batch": _interp_permuted,
 }
+
+
+def coverage_extra():
+    return {
+        "tolerances": {
+            "direct": "|g_lib - g_ref| <= C_DIRECT(1e4) * u64(1.1e-16) * kappa * S, kappa <= 1e6 (else not compared)",
+            "S": "entrywise: d/d|leaf| of sum((|G|+max|G|) * A_abs(|leaves|)) in the monotone absolute-value model (elementwise "
+                 "products modelled normwise), never below |g_ref| + max|g_ref|, plus L/max|leaf| with L = sum(|W||out|)",
+            "cg": "+ C_CG(16) * kappa * max(sqrt(1e-10 / lambda_min), 1e-10)  (linear_cg's eps = 1e-10 progress floor, DESIGN C08)",
+            "lanczos": "+ 16 * tridiagonal_jitter(1e-6) + C_DIRECT * u64 * kappa^2",
+            "ciq": "+ 1e-7 * kappa (minres_tolerance 1e-10, Q = 15 quadrature nodes: error <= 2e-8 for kappa <= 1e6)",
+            "forward_gate": "max|out_lib - out_ref| <= 16 * rtol * max|out_ref|, else forward_mismatch (not reported)",
+            "memeff": "C_MEMEFF(64) * u64 * S",
+            "bilinear": "C_DIRECT * u64 * kappa_internal * (|g| + max|g| + 1e-3 max|U| max|V|)",
+        },
+        "mutants": MUTANTS,
+    }
 
 
 def gaps(labels):
